@@ -413,6 +413,25 @@ class LazyMixin:
             z3.ForAll([k], z3.Implies(z3.And(k >= lo, k < hi), zb(better))),
             z3.ForAll([k], z3.Implies(z3.And(k >= lo, k < lo + r), zb(strict))))), patterns=[r])
         self.axioms.append(ax)
+        # the extremum of a line is a function of the LINE'S CONTENTS: two arrays that agree on [lo, hi) of a line have the same
+        # first extremum there (lets a specification speak about np.argmin of an array that exists only as a local in the code)
+        fam_key = ("extfam", red_abs, is_min, nd, arr0.dt)
+        fam = self._uf_cache.setdefault(fam_key, [])
+        for (other, OUF) in fam:
+            o2 = [z3.Int(fresh_name("xo")) for _ in range(nd - 1)]
+            lo2, hi2, k2 = z3.Int(fresh_name("xlo")), z3.Int(fresh_name("xhi")), z3.Int(fresh_name("xk"))
+            full2 = o2[:red_abs] + [k2] + o2[red_abs:]
+            ea, eb = array_read(st, frozen_arr, full2), array_read(st, other, full2)
+            same = fl.same(fl.F(ea), fl.F(eb)) if arr0.dt == "f" else (ea == eb)
+            agree = z3.ForAll([k2], z3.Implies(z3.And(k2 >= lo2, k2 < hi2), same))
+            concl = UF(*(o2 + [lo2, hi2])) == OUF(*(o2 + [lo2, hi2]))
+            self.axioms.append(z3.ForAll(o2 + [lo2, hi2], z3.Implies(agree, concl), patterns=[UF(*(o2 + [lo2, hi2]))]))
+            self.axioms.append(z3.ForAll(o2 + [lo2, hi2], z3.Implies(agree, concl), patterns=[OUF(*(o2 + [lo2, hi2]))]))
+        fam.append((frozen_arr, UF))
+        if self.opt("witness_marks", False) and hasattr(self, "witness_mark"):
+            # the extremum index is a candidate witness for the existentials of the specification
+            self.axioms.append(z3.ForAll(o + [lo, hi], self.witness_mark(lo + r), patterns=[r]))
+            self.axioms.append(z3.ForAll(o + [lo, hi], self.witness_mark(r), patterns=[r]))
         self._uf_cache[key] = UF
         return UF
 
